@@ -2,10 +2,14 @@
 //!  * one `#[derive(AccountSet)]` struct for EVERY acyclic `requires` graph on 3 and 4 fields
 //!    (25 + 543 labelled DAGs) and for seeded-random DAGs on 5 fields (HX_C11_DAG5, default 120),
 //!    plus a few small structs without `requires` (0, 1, 2 fields);
-//!  * 13 "dispatch" instruction sets (1..6 instructions; default sighash discriminants and
-//!    `use_repr` with u8/u16/u32/u64, implicit and explicit values with gaps) and the "zoo"
-//!    instruction sets that make every generated account set reachable through
-//!    `StarFrameProgram::entrypoint`;
+//!  * "feature" account sets: struct-level `before_validation` / `extra_validation` /
+//!    `extra_cleanup` hooks (instrumented), `#[validate(skip)]` fields, `#[account_set(skip = ..)]`
+//!    fields, funder / recipient marks, NESTED derived sets (depth up to 3, `requires` at every
+//!    level), and structs with a second validate id (`#[validate(id = "alt", ..)]`);
+//!  * 14 "dispatch" instruction sets (1..6 instructions; default sighash discriminants and
+//!    `use_repr` with u8/u16/u32/u64, implicit and explicit values with gaps, one with an
+//!    expression discriminant) and the "zoo" instruction sets that make every generated account
+//!    set reachable through `StarFrameProgram::entrypoint`;
 //!  * the metadata table `SETS` describing what was declared (the oracle's source of truth).
 use std::{env, fmt::Write as _, fs, path::PathBuf};
 
@@ -20,6 +24,9 @@ impl Rng {
     }
     fn below(&mut self, n: u64) -> u64 {
         self.next() % n
+    }
+    fn chance(&mut self, pct: u64) -> bool {
+        self.below(100) < pct
     }
 }
 
@@ -55,37 +62,41 @@ fn all_dags(n: usize) -> Vec<Graph> {
     out
 }
 
+/// random DAG on `n` nodes (edges only backwards in a random topological order)
+fn random_dag(n: usize, rng: &mut Rng, dups: bool) -> Graph {
+    let mut perm: Vec<usize> = (0..n).collect();
+    for i in (1..n).rev() {
+        perm.swap(i, rng.below(i as u64 + 1) as usize);
+    }
+    let density = 1 + rng.below(4); // out of 5
+    let mut g: Graph = vec![vec![]; n];
+    for i in 0..n {
+        for j in 0..i {
+            if rng.below(5) < density {
+                g[perm[i]].push(perm[j]);
+            }
+        }
+        // list order of the requires is arbitrary in real programs
+        let k = g[perm[i]].len();
+        for a in (1..k).rev() {
+            let b = rng.below(a as u64 + 1) as usize;
+            g[perm[i]].swap(a, b);
+        }
+        // occasionally name a required field twice
+        if dups && k > 0 && rng.below(8) == 0 {
+            let d = g[perm[i]][0];
+            g[perm[i]].push(d);
+        }
+    }
+    assert!(acyclic(&g));
+    g
+}
+
 fn random_dags5(count: usize) -> Vec<Graph> {
     let mut rng = Rng(0xC11_5EED);
     let mut out: Vec<Graph> = vec![];
     while out.len() < count {
-        let n = 5;
-        // a random topological order, then edges only "backwards" in it => acyclic by construction
-        let mut perm: Vec<usize> = (0..n).collect();
-        for i in (1..n).rev() {
-            perm.swap(i, rng.below(i as u64 + 1) as usize);
-        }
-        let density = 1 + rng.below(4); // out of 5
-        let mut g: Graph = vec![vec![]; n];
-        for i in 0..n {
-            for j in 0..i {
-                if rng.below(5) < density {
-                    g[perm[i]].push(perm[j]);
-                }
-            }
-            // list order of the requires is arbitrary in real programs
-            let k = g[perm[i]].len();
-            for a in (1..k).rev() {
-                let b = rng.below(a as u64 + 1) as usize;
-                g[perm[i]].swap(a, b);
-            }
-            // occasionally name a required field twice
-            if k > 0 && rng.below(8) == 0 {
-                let d = g[perm[i]][0];
-                g[perm[i]].push(d);
-            }
-        }
-        assert!(acyclic(&g));
+        let g = random_dag(5, &mut rng, true);
         if !out.contains(&g) {
             out.push(g);
         }
@@ -93,7 +104,201 @@ fn random_dags5(count: usize) -> Vec<Graph> {
     out
 }
 
-const FIELD: [&str; 5] = ["a", "b", "c", "d", "e"];
+const FIELD: [&str; 6] = ["a", "b", "c", "d", "e", "f"];
+
+// ------------------------------------------------------------------------------------------------
+// account-set declarations
+// ------------------------------------------------------------------------------------------------
+
+#[derive(Clone)]
+enum Ty {
+    Leaf,
+    Struct(Box<StructDef>),
+    /// `#[account_set(skip = 7u8)] x: u8` — takes part in nothing
+    Plain,
+}
+
+#[derive(Clone)]
+struct FieldDef {
+    requires: Vec<usize>,
+    skip: bool,
+    funder: bool,
+    recipient: bool,
+    /// requires / skip under the second validate id
+    alt: Option<(Vec<usize>, bool)>,
+    ty: Ty,
+}
+
+impl FieldDef {
+    fn leaf(requires: Vec<usize>) -> Self {
+        FieldDef { requires, skip: false, funder: false, recipient: false, alt: None, ty: Ty::Leaf }
+    }
+}
+
+#[derive(Clone, Default)]
+struct StructDef {
+    before: bool,
+    extra: bool,
+    cextra: bool,
+    /// second validate id: (before, extra)
+    alt: Option<(bool, bool)>,
+    fields: Vec<FieldDef>,
+}
+
+fn flat(g: &Graph) -> StructDef {
+    StructDef { fields: g.iter().map(|r| FieldDef::leaf(r.clone())).collect(), ..Default::default() }
+}
+
+/// Emits the Rust declarations of `s` (inner structs first) and returns the model token of the
+/// tree as seen through the default (`alt = false`) or the second validate id of the ROOT.
+struct Emit<'a> {
+    src: &'a mut String,
+    root: String,
+    pid: u32,
+    sid: u32,
+    inner: u32,
+}
+
+impl Emit<'_> {
+    /// returns (token under default id, token under alt id of this struct)
+    fn emit(&mut self, s: &StructDef, name: &str) -> (String, String) {
+        let sid = self.sid;
+        self.sid += 1;
+        let mut decls = String::new();
+        let mut toks: Vec<String> = vec![];
+        let mut toks_alt: Vec<String> = vec![];
+        for (i, f) in s.fields.iter().enumerate() {
+            let fname = FIELD[i];
+            let sub = match &f.ty {
+                Ty::Plain => {
+                    writeln!(decls, "    #[account_set(skip = 7u8)]\n    pub {fname}: u8,").unwrap();
+                    continue;
+                }
+                Ty::Leaf => {
+                    let p = self.pid;
+                    self.pid += 1;
+                    (format!("Probe<{p}>"), format!("L{p}"))
+                }
+                Ty::Struct(inner) => {
+                    let iname = format!("{}_i{}", self.root, self.inner);
+                    self.inner += 1;
+                    let (tok, _) = self.emit(inner, &iname);
+                    (iname, tok)
+                }
+            };
+            let mut args: Vec<String> = vec![];
+            if !f.requires.is_empty() {
+                args.push(format!("requires = [{}]", f.requires.iter().map(|&r| FIELD[r]).collect::<Vec<_>>().join(", ")));
+            }
+            if f.skip {
+                args.push("skip".into());
+            }
+            if f.funder {
+                args.push("funder".into());
+            }
+            if f.recipient {
+                args.push("recipient".into());
+            }
+            if !args.is_empty() {
+                writeln!(decls, "    #[validate({})]", args.join(", ")).unwrap();
+            }
+            if let Some((req, skip)) = &f.alt {
+                let mut args = vec!["id = \"alt\"".to_string()];
+                if !req.is_empty() {
+                    args.push(format!("requires = [{}]", req.iter().map(|&r| FIELD[r]).collect::<Vec<_>>().join(", ")));
+                }
+                if *skip {
+                    args.push("skip".into());
+                }
+                if args.len() > 1 {
+                    writeln!(decls, "    #[validate({})]", args.join(", ")).unwrap();
+                }
+            }
+            writeln!(decls, "    pub {fname}: {},", sub.0).unwrap();
+            let tok = |req: &[usize], skip: bool, funder: bool, recipient: bool| {
+                let mut t = i.to_string();
+                for r in req {
+                    write!(t, "<{r}").unwrap();
+                }
+                let fl: String = [(skip, 's'), (funder, 'f'), (recipient, 'r')].iter().filter(|x| x.0).map(|x| x.1).collect();
+                if !fl.is_empty() {
+                    write!(t, "!{fl}").unwrap();
+                }
+                format!("{t}={}", sub.1)
+            };
+            toks.push(tok(&f.requires, f.skip, f.funder, f.recipient));
+            let (areq, askip) = f.alt.clone().unwrap_or((vec![], false));
+            toks_alt.push(tok(&areq, askip, false, false));
+        }
+        let hook = |k: &str, ph: &str| format!("{k} = hook(Ph::{ph}, {sid})");
+        let src = &mut *self.src;
+        writeln!(src, "#[derive(AccountSet)]").unwrap();
+        writeln!(src, "#[account_set(skip_client_account_set, skip_cpi_account_set, skip_default_idl)]").unwrap();
+        let mut v: Vec<String> = vec![];
+        if s.before {
+            v.push(hook("before_validation", "VBefore"));
+        }
+        if s.extra {
+            v.push(hook("extra_validation", "VExtra"));
+        }
+        if !v.is_empty() {
+            writeln!(src, "#[validate({})]", v.join(", ")).unwrap();
+        }
+        if let Some((b, e)) = s.alt {
+            let mut v = vec!["id = \"alt\"".to_string(), "arg = Alt".to_string()];
+            if b {
+                v.push(hook("before_validation", "VBefore"));
+            }
+            if e {
+                v.push(hook("extra_validation", "VExtra"));
+            }
+            writeln!(src, "#[validate({})]", v.join(", ")).unwrap();
+        }
+        if s.cextra {
+            writeln!(src, "#[cleanup({})]", hook("extra_cleanup", "CExtra")).unwrap();
+        }
+        writeln!(src, "pub struct {name} {{\n{decls}}}").unwrap();
+        let fl = |b: bool, e: bool, x: bool| -> String { [(b, 'b'), (e, 'e'), (x, 'x')].iter().filter(|x| x.0).map(|x| x.1).collect() };
+        let (ab, ae) = s.alt.unwrap_or((false, false));
+        (
+            format!("N{sid}{}({})", fl(s.before, s.extra, s.cextra), toks.join(",")),
+            format!("N{sid}{}({})", fl(ab, ae, s.cextra), toks_alt.join(",")),
+        )
+    }
+}
+
+/// random nested struct
+fn random_struct(depth: usize, rng: &mut Rng, budget: &mut i32) -> StructDef {
+    let n = if depth == 0 { 2 + rng.below(3) as usize } else { 1 + rng.below(3) as usize };
+    let g = random_dag(n, rng, false);
+    let mut fields: Vec<FieldDef> = g
+        .iter()
+        .map(|req| {
+            let ty = if depth < 2 && *budget > 3 && rng.chance(if depth == 0 { 45 } else { 25 }) {
+                Ty::Struct(Box::new(random_struct(depth + 1, rng, budget)))
+            } else {
+                *budget -= 1;
+                Ty::Leaf
+            };
+            FieldDef { requires: req.clone(), skip: rng.chance(12), funder: false, recipient: false, alt: None, ty }
+        })
+        .collect();
+    let leaves: Vec<usize> = (0..n).filter(|&i| matches!(fields[i].ty, Ty::Leaf)).collect();
+    if !leaves.is_empty() && rng.chance(50) {
+        let i = leaves[rng.below(leaves.len() as u64) as usize];
+        fields[i].funder = true;
+    }
+    if !leaves.is_empty() && rng.chance(40) {
+        let i = leaves[rng.below(leaves.len() as u64) as usize];
+        fields[i].recipient = true;
+    }
+    // a plain (decode-skipped) field somewhere; `requires` indices refer to positions, so append
+    // it at the end to keep them valid
+    if n < FIELD.len() - 1 && rng.chance(15) {
+        fields.push(FieldDef { requires: vec![], skip: false, funder: false, recipient: false, alt: None, ty: Ty::Plain });
+    }
+    StructDef { before: rng.chance(40), extra: rng.chance(40), cextra: rng.chance(30), alt: None, fields }
+}
 
 #[derive(Clone)]
 enum Kind {
@@ -105,9 +310,12 @@ enum Kind {
 
 struct Variant {
     name: String,
-    explicit: Option<u64>,
+    /// explicit discriminant: (source text, value according to Rust)
+    explicit: Option<(String, u64)>,
     acct: usize, // index into account sets
     alen: usize,
+    alt: bool,
+    ret: bool,
 }
 
 struct Set {
@@ -116,59 +324,158 @@ struct Set {
     variants: Vec<Variant>,
 }
 
+struct Acct {
+    name: String,
+    tok: String,
+    tok_alt: Option<String>,
+}
+
 fn main() {
     println!("cargo:rerun-if-changed=build.rs");
     println!("cargo:rerun-if-env-changed=HX_C11_DAG5");
     let dag5: usize = env::var("HX_C11_DAG5").ok().and_then(|s| s.parse().ok()).unwrap_or(120);
 
     // ---------------------------------------------------------------- account sets
-    let mut graphs: Vec<(String, Graph)> = vec![];
-    graphs.push(("P0".into(), vec![]));
-    graphs.push(("P1".into(), vec![vec![]]));
-    graphs.push(("P2".into(), vec![vec![], vec![]]));
-    graphs.push(("P2r".into(), vec![vec![1], vec![]]));
-    let small = graphs.len();
-    for (i, g) in all_dags(3).into_iter().enumerate() {
-        graphs.push((format!("G3n{i}"), g));
+    let mut defs: Vec<(String, StructDef)> = vec![];
+    defs.push(("P0".into(), flat(&vec![])));
+    defs.push(("P1".into(), flat(&vec![vec![]])));
+    defs.push(("P2".into(), flat(&vec![vec![], vec![]])));
+    defs.push(("P2r".into(), flat(&vec![vec![1], vec![]])));
+    let d3 = all_dags(3);
+    let d4 = all_dags(4);
+    assert_eq!(d3.len(), 25);
+    assert_eq!(d4.len(), 543);
+    for (i, g) in d3.iter().enumerate() {
+        defs.push((format!("G3n{i}"), flat(g)));
     }
-    let n3 = graphs.len() - small;
-    for (i, g) in all_dags(4).into_iter().enumerate() {
-        graphs.push((format!("G4n{i}"), g));
+    for (i, g) in d4.iter().enumerate() {
+        defs.push((format!("G4n{i}"), flat(g)));
     }
-    let n4 = graphs.len() - small - n3;
     for (i, g) in random_dags5(dag5).into_iter().enumerate() {
-        graphs.push((format!("G5n{i}"), g));
+        defs.push((format!("G5n{i}"), flat(&g)));
     }
-    assert_eq!(n3, 25);
-    assert_eq!(n4, 543);
+    let n_flat = defs.len();
+
+    // --- feature sets
+    let chain: Graph = vec![vec![2], vec![0], vec![]]; // a requires c, b requires a
+    let fork: Graph = vec![vec![], vec![0, 2], vec![]];
+    let mut k = 0;
+    // H: every combination of the three struct-level hooks
+    for g in [&chain, &fork] {
+        for m in 0..8 {
+            let mut s = flat(g);
+            s.before = m & 1 != 0;
+            s.extra = m & 2 != 0;
+            s.cextra = m & 4 != 0;
+            defs.push((format!("H{k}"), s));
+            k += 1;
+        }
+    }
+    // S: #[validate(skip)] on each subset of one or two fields
+    k = 0;
+    for g in [&chain, &fork] {
+        for m in 1..7u32 {
+            let mut s = flat(g);
+            for i in 0..3 {
+                s.fields[i].skip = m >> i & 1 == 1;
+            }
+            s.extra = m % 2 == 0;
+            defs.push((format!("S{k}"), s));
+            k += 1;
+        }
+    }
+    // K: decode-skipped plain fields (appended so that `requires` positions stay valid)
+    for (i, g) in [&chain, &fork].iter().enumerate() {
+        let mut s = flat(g);
+        s.fields.push(FieldDef { ty: Ty::Plain, ..FieldDef::leaf(vec![]) });
+        s.fields.push(FieldDef::leaf(vec![1]));
+        defs.push((format!("K{i}"), s));
+    }
+    // F: funder / recipient marks (first in VALIDATION order wins across nesting)
+    k = 0;
+    for fu in 0..3 {
+        for re in 0..3 {
+            let mut s = flat(&chain);
+            s.fields[fu].funder = true;
+            s.fields[re].recipient = true;
+            s.fields[(fu + 1) % 3].skip = re == 1;
+            defs.push((format!("F{k}"), s));
+            k += 1;
+        }
+    }
+    // N: nested sets
+    {
+        // hand-written: outer a(requires b, funder), b = inner{x requires y, y funder}, c skipped recipient
+        let inner = StructDef {
+            extra: true,
+            cextra: true,
+            fields: vec![FieldDef::leaf(vec![1]), FieldDef { funder: true, ..FieldDef::leaf(vec![]) }],
+            ..Default::default()
+        };
+        let outer = StructDef {
+            before: true,
+            extra: true,
+            fields: vec![
+                FieldDef { funder: true, ..FieldDef::leaf(vec![1]) },
+                FieldDef { ty: Ty::Struct(Box::new(inner)), ..FieldDef::leaf(vec![]) },
+                FieldDef { skip: true, recipient: true, ..FieldDef::leaf(vec![]) },
+            ],
+            ..Default::default()
+        };
+        defs.push(("N0".into(), outer));
+    }
+    let mut rng = Rng(0xC11_7EE5);
+    for i in 1..=60 {
+        let mut budget = 12;
+        defs.push((format!("N{i}"), random_struct(0, &mut rng, &mut budget)));
+    }
+    // I: a second validate id with its own requires / skip / hooks
+    for i in 0..8 {
+        let g1 = if i % 2 == 0 { chain.clone() } else { random_dag(4, &mut rng, false) };
+        let n = g1.len();
+        let g2 = loop {
+            let g = random_dag(n, &mut rng, false);
+            if g != g1 {
+                break g;
+            }
+        };
+        let mut s = flat(&g1);
+        for (f, req) in s.fields.iter_mut().zip(&g2) {
+            f.alt = Some((req.clone(), rng.chance(15)));
+        }
+        s.before = i % 3 == 0;
+        s.extra = i % 3 == 1;
+        s.alt = Some((i % 2 == 1, i % 4 < 2));
+        s.fields[i % n].funder = true;
+        defs.push((format!("I{i}"), s));
+    }
 
     let mut src = String::new();
     writeln!(src, "// @generated by hx-lifecycle/build.rs").unwrap();
-    for (name, g) in &graphs {
-        writeln!(src, "#[derive(AccountSet)]").unwrap();
-        writeln!(src, "#[account_set(skip_client_account_set, skip_cpi_account_set, skip_default_idl)]").unwrap();
-        if g.is_empty() {
-            writeln!(src, "pub struct {name} {{}}").unwrap();
-            continue;
-        }
-        writeln!(src, "pub struct {name} {{").unwrap();
-        for (f, req) in g.iter().enumerate() {
-            if !req.is_empty() {
-                let rs: Vec<&str> = req.iter().map(|&r| FIELD[r]).collect();
-                writeln!(src, "    #[validate(requires = [{}])]", rs.join(", ")).unwrap();
-            }
-            writeln!(src, "    pub {}: Probe<{f}>,", FIELD[f]).unwrap();
-        }
-        writeln!(src, "}}").unwrap();
+    let mut accts: Vec<Acct> = vec![];
+    for (name, def) in &defs {
+        let mut e = Emit { src: &mut src, root: name.clone(), pid: 0, sid: 0, inner: 0 };
+        let (tok, tok_alt) = e.emit(def, name);
+        accts.push(Acct { name: name.clone(), tok, tok_alt: def.alt.map(|_| tok_alt) });
     }
 
     // ---------------------------------------------------------------- instruction sets
-    let acct_of = |name: &str| graphs.iter().position(|(n, _)| n == name).unwrap();
+    let acct_of = |name: &str| accts.iter().position(|a| a.name == name).unwrap();
     let v = |name: &str, explicit: Option<u64>, acct: &str, alen: usize| Variant {
         name: name.into(),
-        explicit,
+        explicit: explicit.map(|x| (x.to_string(), x)),
         acct: acct_of(acct),
         alen,
+        alt: false,
+        ret: alen == 2,
+    };
+    let vx = |name: &str, text: &str, val: u64, acct: &str, alen: usize| Variant {
+        name: name.into(),
+        explicit: Some((text.into(), val)),
+        acct: acct_of(acct),
+        alen,
+        alt: false,
+        ret: false,
     };
     let mut sets: Vec<Set> = vec![
         Set { name: "D1".into(), kind: Kind::Default, variants: vec![v("Initialize", None, "G3n7", 1)] },
@@ -191,7 +498,7 @@ fn main() {
                 v("TransferTokens", None, "G4n100", 4),
                 v("CloseAccount", None, "G3n20", 0),
                 v("X1", None, "P0", 1),
-                v("SetAuthorityV2", None, "G4n500", 2),
+                v("SetAuthorityV2", None, "N0", 2),
             ],
         },
         Set { name: "R8a".into(), kind: Kind::Repr("u8"), variants: vec![v("Only", None, "G3n3", 1)] },
@@ -252,26 +559,63 @@ fn main() {
             ],
         },
         Set { name: "R64b".into(), kind: Kind::Repr("u64"), variants: vec![v("Huge", Some(u64::MAX), "G3n22", 1)] },
+        // explicit discriminants written as EXPRESSIONS, each followed by an implicit variant
+        Set {
+            name: "RExpr".into(),
+            kind: Kind::Repr("u8"),
+            variants: vec![
+                vx("Shift", "1 << 4", 16, "P1", 1),
+                v("AfterShift", None, "P2", 0),
+                vx("Paren", "(2 + 3) * 4", 20, "P2r", 1),
+                v("AfterParen", None, "G3n5", 1),
+                vx("Or", "0x41 | 0x01", 0x41, "P0", 0),
+                v("AfterOr", None, "P1", 2),
+            ],
+        },
     ];
     let n_dispatch_sets = sets.len();
-    // zoo sets: every graph reachable, up to 32 variants per set, kinds rotating
+    // zoo sets: every account set reachable, up to 32 variants per set, kinds rotating
     let zoo_kinds = [Kind::Default, Kind::Repr("u8"), Kind::Repr("u16"), Kind::Repr("u32")];
     let alens = [0usize, 1, 4, 2, 1];
-    for (ci, chunk) in (0..graphs.len()).collect::<Vec<_>>().chunks(32).enumerate() {
+    let mut zoo: Vec<(usize, bool)> = vec![];
+    for (i, a) in accts.iter().enumerate() {
+        zoo.push((i, false));
+        if a.tok_alt.is_some() {
+            zoo.push((i, true));
+        }
+    }
+    let _ = n_flat;
+    for (ci, chunk) in zoo.chunks(32).enumerate() {
         let kind = zoo_kinds[ci % zoo_kinds.len()].clone();
         let mut variants = vec![];
-        for (j, &gi) in chunk.iter().enumerate() {
+        for (j, &(gi, alt)) in chunk.iter().enumerate() {
             let explicit = match (&kind, j) {
                 (Kind::Repr("u16"), _) => Some(1000 + 7 * j as u64 + 256 * (j as u64 % 3)),
                 (Kind::Repr("u32"), j) if j % 5 == 0 => Some(0x0101_0000 * (j as u64 / 5 + 1)),
                 (Kind::Repr("u8"), 0) => Some(100),
                 _ => None,
             };
-            variants.push(Variant { name: format!("V{}", graphs[gi].0), explicit, acct: gi, alen: alens[(gi + j) % alens.len()] });
+            variants.push(Variant {
+                name: format!("V{}{}", accts[gi].name, if alt { "Alt" } else { "" }),
+                explicit: explicit.map(|x| (x.to_string(), x)),
+                acct: gi,
+                alen: alens[(gi + j) % alens.len()],
+                alt,
+                ret: (gi + j) % 3 == 0,
+            });
         }
         sets.push(Set { name: format!("Z{ci}"), kind, variants });
     }
 
+    let ix_ty = |var: &Variant, hid: usize| {
+        format!(
+            "GIx<{}, {hid}, {}, {}, {}>",
+            accts[var.acct].name,
+            var.alen,
+            if var.alt { "Alt" } else { "()" },
+            if var.ret { "u64" } else { "()" }
+        )
+    };
     for s in &sets {
         writeln!(src, "#[derive(InstructionSet)]").unwrap();
         match &s.kind {
@@ -283,33 +627,31 @@ fn main() {
         }
         writeln!(src, "pub enum {} {{", s.name).unwrap();
         for (hid, var) in s.variants.iter().enumerate() {
-            let ty = format!("GIx<{}, {hid}, {}>", graphs[var.acct].0, var.alen);
-            match var.explicit {
-                Some(x) => writeln!(src, "    {}({ty}) = {x},", var.name).unwrap(),
+            let ty = ix_ty(var, hid);
+            match &var.explicit {
+                Some((text, _)) => writeln!(src, "    {}({ty}) = {text},", var.name).unwrap(),
                 None => writeln!(src, "    {}({ty}),", var.name).unwrap(),
             }
         }
         writeln!(src, "}}").unwrap();
         writeln!(src, "fn discs_{}() -> Vec<Vec<u8>> {{ vec![", s.name).unwrap();
         for (hid, var) in s.variants.iter().enumerate() {
-            writeln!(
-                src,
-                "    <GIx<{}, {hid}, {}> as InstructionDiscriminant<{}>>::discriminant_bytes(),",
-                graphs[var.acct].0, var.alen, s.name
-            )
-            .unwrap();
+            writeln!(src, "    <{} as InstructionDiscriminant<{}>>::discriminant_bytes(),", ix_ty(var, hid), s.name).unwrap();
+        }
+        writeln!(src, "] }}").unwrap();
+        // the tag rustc itself stores for each variant of a `#[repr(uN)]` enum
+        writeln!(src, "fn rustc_tags_{}() -> Vec<Vec<u8>> {{ vec![", s.name).unwrap();
+        if let Kind::Repr(t) = &s.kind {
+            for var in &s.variants {
+                writeln!(src, "    tag_of(&{}::{}(GIx::new()), core::mem::size_of::<{t}>()),", s.name, var.name).unwrap();
+            }
         }
         writeln!(src, "] }}").unwrap();
     }
 
     // ---------------------------------------------------------------- metadata
-    writeln!(src, "pub static GRAPHS: &[GraphMeta] = &[").unwrap();
-    for (name, g) in &graphs {
-        let fields: Vec<String> = g.iter().map(|req| format!("&{:?}", req)).collect();
-        writeln!(src, "    GraphMeta {{ name: {name:?}, fields: &[{}] }},", fields.join(", ")).unwrap();
-    }
-    writeln!(src, "];").unwrap();
     writeln!(src, "pub const N_DISPATCH_SETS: usize = {n_dispatch_sets};").unwrap();
+    writeln!(src, "pub const N_ACCOUNT_SETS: usize = {};", accts.len()).unwrap();
     writeln!(src, "pub static SETS: &[SetMeta] = &[").unwrap();
     for s in &sets {
         let (width, align, repr) = match &s.kind {
@@ -327,19 +669,21 @@ fn main() {
         };
         writeln!(
             src,
-            "    SetMeta {{ name: {:?}, repr: {repr}, width: {width}, align: {align}, entry: entry::<{}>, discs: discs_{}, variants: &[",
-            s.name, s.name, s.name
+            "    SetMeta {{ name: {:?}, repr: {repr}, width: {width}, align: {align}, entry: entry::<{}>, discs: discs_{}, rustc_tags: rustc_tags_{}, variants: &[",
+            s.name, s.name, s.name, s.name
         )
         .unwrap();
         for (hid, var) in s.variants.iter().enumerate() {
-            let ex = match var.explicit {
-                Some(x) => format!("Some({x})"),
+            let ex = match &var.explicit {
+                Some((_, x)) => format!("Some({x})"),
                 None => "None".into(),
             };
+            let a = &accts[var.acct];
+            let tok = if var.alt { a.tok_alt.as_ref().unwrap() } else { &a.tok };
             writeln!(
                 src,
-                "        VarMeta {{ name: {:?}, explicit: {ex}, hid: {hid}, alen: {}, graph: {} }},",
-                var.name, var.alen, var.acct
+                "        VarMeta {{ name: {:?}, explicit: {ex}, hid: {hid}, alen: {}, acct: {:?}, tree: {:?} }},",
+                var.name, var.alen, a.name, tok
             )
             .unwrap();
         }
